@@ -149,6 +149,7 @@ type Exec struct {
 	ctx     *Ctx
 	solver  *Solver
 	solver2 *Solver
+	solver3 func() *Solver // last resort: a fresh solver of the primary kind with the full time budget
 	fallbacks int
 	cfg     *HarnessCfg
 	entry   *ssa.Function
@@ -280,6 +281,11 @@ func (ex *Exec) checkWith(t *Term) SatResult {
 	if r == Unknown && ex.solver2 != nil {
 		ex.fallbacks++
 		r = ex.solver2.CheckFresh(ex.pc, t)
+	}
+	if r == Unknown && ex.solver3 != nil {
+		if s3 := ex.solver3(); s3 != nil {
+			r = s3.CheckFresh(ex.pc, t)
+		}
 	}
 	return r
 }
